@@ -8,5 +8,5 @@ import (
 func main() {
 	o := hx.ParseOpts()
 	env := hx.NewEnv()
-	hx.RunHistories(env, record.New(env, o.Len), o)
+	hx.RunHistories(env, record.NewLen(env, o.Len), o)
 }
